@@ -88,7 +88,8 @@ def run(db: DB, rep: Report) -> None:
     dnode, open_br, ext_br, ext_polarity = decision
     rep.instance("S0", where(dnode), "decision: " + norm(dnode.test))
 
-    # alias field: assigned self.<blocks>[-1] in the opening branch
+    # alias field: assigned self.<blocks>[-1] in the opening branch, or assigned the new
+    # one-element list that is then appended to self.<blocks>
     curr = None
     for s in open_br:
         for n in ast.walk(s):
@@ -98,11 +99,17 @@ def run(db: DB, rep: Report) -> None:
                 if isinstance(idx, ast.UnaryOp) and isinstance(idx.op, ast.USub) and \
                         isinstance(idx.operand, ast.Constant) and idx.operand.value == 1:
                     curr = n.targets[0].attr
+            if isinstance(n, ast.Assign) and len(n.targets) == 1 and _is_self_attr(n.targets[0]) \
+                    and isinstance(n.value, ast.List) and len(n.value.elts) == 1:
+                cand = n.targets[0].attr
+                if any(_append_call(x, blocks) and x.args and _is_self_attr(x.args[0], cand)
+                       for s2 in open_br for x in ast.walk(s2)):
+                    curr = cand
 
     # ---- S1: the decision reads three conditions, each pairing state with incoming value
     rep.rule("S1", "decision pairs each state field with the incoming Einsum's value "
              "(config, temporal prefix, component set)", 3)
-    atoms = paths.conjuncts(dnode.test, ext_polarity)
+    atoms = paths.expand_atoms(dnode.test, ext_polarity, fn)
     pairs: List[Tuple[str, str, str]] = []   # (kind, field, local)
     kinds_found: Dict[str, Tuple[str, str]] = {}
     for atom, pol in atoms:
@@ -128,8 +135,9 @@ def run(db: DB, rep: Report) -> None:
         # operator shape: equality for config/ranks, disjointness for components
         ok_shape = False
         if kind in ("config", "ranks"):
-            ok_shape = pol and isinstance(atom, ast.Compare) and len(atom.ops) == 1 and \
-                isinstance(atom.ops[0], ast.Eq)
+            ok_shape = isinstance(atom, ast.Compare) and len(atom.ops) == 1 and (
+                (pol and isinstance(atom.ops[0], ast.Eq)) or
+                (not pol and isinstance(atom.ops[0], ast.NotEq)))
         else:
             if isinstance(atom, ast.Call) and isinstance(atom.func, ast.Attribute):
                 if atom.func.attr == "intersection" and not pol:
@@ -214,11 +222,20 @@ def run(db: DB, rep: Report) -> None:
             if "root_name" in paths.called_names([n.value]) and "get_output" in paths.called_names([n.value]):
                 einsum_locals.add(n.targets[0].id)
 
+    def one_einsum_list(a) -> bool:
+        return isinstance(a, ast.List) and len(a.elts) == 1 and \
+            isinstance(a.elts[0], ast.Name) and a.elts[0].id in einsum_locals
+
     def is_app(n: ast.AST) -> bool:
         if _append_call(n, blocks):
             a = n.args[0] if n.args else None
-            return isinstance(a, ast.List) and len(a.elts) == 1 and \
-                isinstance(a.elts[0], ast.Name) and a.elts[0].id in einsum_locals
+            if one_einsum_list(a):
+                return True
+            # self.blocks.append(self.<alias>) with self.<alias> = [einsum] just before
+            if curr is not None and _is_self_attr(a, curr):
+                return any(isinstance(x, ast.Assign) and _is_self_attr(x.targets[0], curr) and
+                           one_einsum_list(x.value) for s2 in open_br for x in ast.walk(s2))
+            return False
         if curr is not None and _append_call(n, curr):
             a = n.args[0] if n.args else None
             return isinstance(a, ast.Name) and a.id in einsum_locals
@@ -310,9 +327,9 @@ def run(db: DB, rep: Report) -> None:
                 for x in ast.walk(val):
                     if isinstance(x, ast.Call) and isinstance(x.func, ast.Attribute) and \
                             x.func.attr == "get_name" and isinstance(x.func.value, ast.Name):
-                        for st2, v2 in paths.defs_of(fn, x.func.value.id):
-                            if v2 is not None and "get_components" in paths.called_names([v2]):
-                                fill_ok = True
+                        _, ex2 = paths.backward_slice(fn, [x.func.value.id], with_control=False)
+                        if "get_components" in paths.called_names(ex2):
+                            fill_ok = True
         rep.check("S6", src_ok and fill_ok, where(fn), f.short, "incoming-components:" + local,
                   "'%s' receives get_name() of get_components(einsum, FunctionalComponent)" % local,
                   "the set compared with the block's used components is not filled with the names "
@@ -462,7 +479,21 @@ def _check_prefix(db: DB, rep: Report, f, local: str) -> None:
         s_false = (S, False) in guard
         where = db.loc(st)
         if is_whole(v):
-            rep.check("S7", s_false, where, f.short, "prefix:whole-order",
+            # default-then-override: 'x = L' followed by 'if S: x = L[:...]' in the same block
+            overridden = False
+            if not s_false and isinstance(st, (ast.Assign, ast.AnnAssign)):
+                _, _, blk = paths.block_of(st)
+                seen_ = False
+                for s_ in blk:
+                    if s_ is st:
+                        seen_ = True
+                        continue
+                    if seen_ and isinstance(s_, ast.If) and not s_.orelse and \
+                            any((norm(a), p) == (S, True) for a, p in paths.conjuncts(s_.test, True)) and \
+                            any(isinstance(x, ast.Assign) and isinstance(x.targets[0], ast.Name) and
+                                x.targets[0].id == local for x in s_.body):
+                        overridden = True
+            rep.check("S7", s_false or overridden, where, f.short, "prefix:whole-order",
                       "without spatial ranks the prefix is the whole loop order",
                       "the temporal prefix is the whole loop order on a path that is not restricted to "
                       "'no spatial ranks' (guard %s)" % guard)
